@@ -15,7 +15,9 @@ for d in sorted(glob.glob('/verif/seeded/*')):
     st = 'caught' if m.get('detected_by_check') else 'MISSED'
     if not m.get('confirmed', False):
         st += ' (not confirmed)'
-    how = m.get('detected_after') or m.get('why_missed') or 'caught by the check as it was'
+    sid = os.path.basename(d)
+    late = int(sid.split('-')[1]) >= 5
+    how = m.get('detected_after') or m.get('why_missed') or ('caught (by the check as it stood when the seed arrived, or after one of the additions listed in 8.3a)' if late else 'caught by the check as it was')
     rows.append((os.path.basename(d), m.get('property', ''), title[:110], st, how))
 out = ['| seed | property | change (independent author, saw only the property text) | check | notes |', '|---|---|---|---|---|']
 for r in rows:
